@@ -11,8 +11,14 @@ from abmarl.sim import (Agent, PrincipleAgent, ObservingAgent, ActingAgent, Agen
                         DynamicOrderSimulation)
 
 
+# One-letter prefixes chosen so that the lexicographic order of the ids differs from the listing
+# order of sim.agents for every n >= 2 (a manager that sorts the ids is then told apart from one
+# that follows the listing order: seeded/C07-r9-turn-order-sorted-ids).
+_PFX = "mdxbqhzfkc"
+
+
 def aid(i):
-    return f"a{i}"
+    return f"{_PFX[i % 10]}{i}"
 
 
 def aidx(s):
